@@ -194,7 +194,10 @@ func (m *Manager) SetSubscriberQoS(qos *SubscriberQoS) error {
 	}
 
 	// Create ingress (upload) token bucket
-	uploadBurst := defaultBurst(qos.UploadBPS)
+	uploadBurst := qos.BurstBytes
+	if uploadBurst == 0 {
+		uploadBurst = defaultBurst(qos.UploadBPS)
+	}
 
 	ingressTB := &TokenBucket{
 		Tokens:     uint64(uploadBurst),
